@@ -1929,14 +1929,17 @@ class StridedInterval:
                 # It's testing the sign bit
                 stride = 1 << (a.bits - 1)
                 if b.is_integer:
-                    if b.lower_bound == stride:
+                    if b.lower_bound & stride:
                         return StridedInterval(bits=b.bits, stride=0, lower_bound=stride, upper_bound=stride)
                     return StridedInterval(bits=b.bits, stride=0, lower_bound=0, upper_bound=0)
-                is_sol = (
-                    a.lower_bound - b.lower_bound
-                ) % b.stride == 0 and b.lower_bound <= a.lower_bound <= b.upper_bound
-                if is_sol:
+                # the result is the sign bit for the members that have it set, and 0 for the others
+                bounds = b._unsigned_bounds()
+                some_set = any(ub >= stride for _, ub in bounds)
+                some_clear = any(lb < stride for lb, _ in bounds)
+                if some_set and some_clear:
                     return StridedInterval(bits=b.bits, stride=stride, lower_bound=0, upper_bound=stride)
+                if some_set:
+                    return StridedInterval(bits=b.bits, stride=0, lower_bound=stride, upper_bound=stride)
                 return StridedInterval(bits=b.bits, stride=0, lower_bound=0, upper_bound=0)
             # FIXME: implement case only one 1 not in first position
 
